@@ -1124,6 +1124,11 @@ func (e *Evaluator) evalPatternRules(patternRules []*Rule) error {
 }
 
 func (e *Evaluator) GetRootJson() (string, error) {
+	if e.root == nil {
+		// no input was ever read
+		return "", fmt.Errorf("no value to write")
+	}
+
 	val, err := e.root.Value.ToGoValue()
 	if err != nil {
 		return "", err
